@@ -61,6 +61,12 @@ Proof. unfold s_builder_drop. destruct (l_kill_def (s_life sw) e) as [s' [|]]; c
 Lemma s_builder_drop_hl sw e : s_hl (s_builder_drop sw e) = s_hl sw.
 Proof. unfold s_builder_drop. destruct (l_kill_def (s_life sw) e) as [s' [|]]; reflexivity. Qed.
 
+Lemma s_builder_drop_env w env e : s_builder_drop (s_with_env w env) e = s_with_env (s_builder_drop w e) env.
+Proof. unfold s_builder_drop. cbn [s_life s_with_env]. destruct (l_kill_def (s_life w) e) as [s' [|]]; reflexivity. Qed.
+
+Ltac envn := unfold s_insert_comps, s_purge_killed; rewrite ?s_builder_drop_env;
+  cbn [s_life s_ok s_hl s_hs s_env s_with_env].
+
 Lemma lrun_creates pend cs : forall s,
   fst (lrun s (creates pend cs)) = fst (fold_left (fun st i => (fst (l_create pend (fst st) i), tt)) cs (s, tt)).
 Proof.
@@ -102,8 +108,8 @@ Definition is_obs (o : op) : bool :=
   match o with OIsAlive _ | OWIsAlive _ | OJoinEntities | OEntityAt _ | OProbeAll | OBad => true | _ => false end.
 
 (* one specification-world step, seen from the lifecycle specification *)
-Lemma sstep_micro sw o cs :
-  let r := sstep sw o cs in
+Lemma sstep_core_micro sw o cs :
+  let r := sstep_core sw o cs in
   s_life (fst r) = fst (lrun (s_life sw) (micro sw o cs)) /\
   (s_ok (fst r) = true -> s_ok sw = true /\ lvalid (s_life sw) (micro sw o cs) = true) /\
   (is_creation o = true -> match snd r with WHandles l => l = lhandles (s_life sw) (micro sw o cs) | _ => False end) /\
@@ -141,11 +147,11 @@ Proof.
     repeat split; auto.
     - apply s_builder_drop_ok in H. rewrite Hok in H. apply andb_true_iff in H. tauto.
     - apply s_builder_drop_ok in H. rewrite Hok in H. apply andb_true_iff in H. rewrite !andb_true_r. tauto. }
-  destruct o as [c|c|n| |n|built c|c|h|hs|h| | |h|h| |h| | ]; cbn [sstep micro is_creation is_obs].
+  destruct o as [c|c|n| |n|built c|c|h|hs|h| | |h|h| |h| |so| | ]; cbn [sstep_core micro is_creation is_obs].
   - specialize (Hone false (hd_choice cs)). destruct (s_create false sw (hd_choice cs)) as [w1 e]. cbn [fst snd].
-    destruct Hone as [H1 [H2 [H3 H4]]]. fin.
+    destruct Hone as [H1 [H2 [H3 H4]]]. envn. fin.
   - specialize (Htwo false (hd_choice cs)). destruct (s_create false sw (hd_choice cs)) as [w1 e]. cbn [fst snd].
-    destruct Htwo as [H1 [H2 [H3 H4]]]. fin.
+    destruct Htwo as [H1 [H2 [H3 H4]]]. envn. fin.
   - pose proof (s_create_n_spec false n sw cs) as X. destruct (s_create_n false n sw cs) as [w1 l]. cbn [fst snd] in *.
     destruct X as [X1 [X2 [X3 X4]]]. rewrite <- X3. fin; apply X1; assumption.
   - specialize (Hone true (hd_choice cs)). destruct (s_create true sw (hd_choice cs)) as [w1 e]. cbn [fst snd].
@@ -154,31 +160,42 @@ Proof.
     destruct X as [X1 [X2 [X3 X4]]]. rewrite <- X3. fin; apply X1; assumption.
   - destruct built.
     + specialize (Hone true (hd_choice cs)). destruct (s_create true sw (hd_choice cs)) as [w1 e]. cbn [fst snd].
-      destruct Hone as [H1 [H2 [H3 H4]]]. fin.
+      destruct Hone as [H1 [H2 [H3 H4]]]. envn. fin.
     + specialize (Htwo true (hd_choice cs)). destruct (s_create true sw (hd_choice cs)) as [w1 e]. cbn [fst snd].
-      destruct Htwo as [H1 [H2 [H3 H4]]]. fin.
+      destruct Htwo as [H1 [H2 [H3 H4]]]. envn. fin.
   - specialize (Hone true (hd_choice cs)). destruct (s_create true sw (hd_choice cs)) as [w1 e]. cbn [fst snd].
     destruct Hone as [H1 [H2 [H3 H4]]]. fin.
   - destruct (hget (s_hs sw) h) as [e|]; [|cbn; fin].
     rewrite lrun_cons, lhandles_cons. cbn [lrun lvalid lstep choice_ok fst snd].
-    destruct (l_kill_res (s_life sw) [e]) as [s' r]. cbn. fin.
+    destruct (l_kill_res (s_life sw) [e]) as [s' r]. envn. cbn. fin.
   - destruct (hget_all (s_hs sw) hs) as [es|]; [|cbn; fin].
     rewrite lrun_cons, lhandles_cons. cbn [lrun lvalid lstep choice_ok fst snd].
-    destruct (l_kill_res (s_life sw) es) as [s' r]. cbn. fin.
+    destruct (l_kill_res (s_life sw) es) as [s' r]. envn. cbn. fin.
   - destruct (hget (s_hs sw) h) as [e|]; [|cbn; fin].
     rewrite lrun_cons, lhandles_cons. cbn [lrun lvalid lstep choice_ok fst snd].
     destruct (l_kill_def (s_life sw) e) as [s' ok]. cbn. fin.
   - rewrite lrun_cons, lhandles_cons. cbn [lrun lvalid lstep choice_ok fst snd].
-    destruct (l_kill_res (s_life sw) (l_entities (s_life sw))) as [s' [p|]]; cbn; fin.
+    destruct (l_kill_res (s_life sw) (l_entities (s_life sw))) as [s' [p|]]; envn; cbn; fin.
   - rewrite lrun_cons, lhandles_cons. cbn [lrun lvalid lstep choice_ok fst snd].
-    destruct (l_merge (s_life sw)) as [s' d]. cbn. fin.
+    destruct (l_merge (s_life sw)) as [s' [|x d]]; envn; cbn; fin.
   - destruct (hget (s_hs sw) h); cbn; fin.
   - destruct (hget (s_hs sw) h); cbn; fin.
   - cbn; fin.
   - destruct (hget (s_hs sw) h); cbn; fin.
+  - cbn; fin.
+  - destruct (env_sop (s_env sw) (l_view (s_life sw)) (s_hs sw) so) as [e' out]. cbn; fin.
   - cbn; fin.
   - cbn; fin.
 Qed.
+
+Lemma sstep_micro sw o cs :
+  let r := sstep sw o cs in
+  s_life (fst r) = fst (lrun (s_life sw) (micro sw o cs)) /\
+  (s_ok (fst r) = true -> s_ok sw = true /\ lvalid (s_life sw) (micro sw o cs) = true) /\
+  (is_creation o = true -> match snd r with WHandles l => l = lhandles (s_life sw) (micro sw o cs) | _ => False end) /\
+  (is_creation o = false -> lhandles (s_life sw) (micro sw o cs) = []) /\
+  s_hl (fst r) = rev (lhandles (s_life sw) (micro sw o cs)) ++ s_hl sw.
+Proof. exact (sstep_core_micro (s_begin sw) o cs). Qed.
 
 (* ------------------------------------------------------------------ *)
 (* transcripts *)
@@ -202,7 +219,10 @@ Proof.
 Qed.
 
 Lemma wout_eqb_handles out l : wout_eqb out (WHandles l) = true -> out = WHandles l.
-Proof. destruct out as [l'|[[p g]|]|[g|]|b|l'|l'| | ]; cbn; try discriminate. intros H. apply ents_eqb_eq in H. subst. reflexivity. Qed.
+Proof.
+  destruct out as [l'|[[p g]|]|[g|]|b|l'|l'| | |r|o|n|l'|l'|r|v|l'|k]; unfold wout_eqb; try discriminate.
+  intros H. apply ents_eqb_eq in H. subst. reflexivity.
+Qed.
 
 (* an accepted transcript: its allocator part is a valid lifecycle run, the
    handles it reports are the handles of that run *)
@@ -227,7 +247,7 @@ Proof.
     rewrite E1, <- X1, lhandles_app, <- X1, <- I3.
     assert (returned o out = lhandles (s_life sw) (micro sw o (choices_of out))) as Hret.
     { unfold returned. destruct (is_creation o) eqn:Ec.
-      - specialize (X3 eq_refl). destruct out1 as [l| | | | | | | ]; try contradiction.
+      - specialize (X3 eq_refl). destruct out1 as [l| | | | | | | | | | | | | | | | ]; try contradiction.
         apply wout_eqb_handles in Heq. subst. cbn [is_creation]. exact X3.
       - symmetry. apply X4. reflexivity. }
     rewrite Hret. repeat split; auto.
